@@ -83,11 +83,13 @@ func protoFields(t types.Type) []*types.Var {
 // deepCopy allocates a copy of the message at src (nested module messages are
 // copied, leaf values are shared). Returns the new reference (nil stays nil).
 func (x *Exec) deepCopy(st *State, t types.Type, src Term, depth int) Term {
+	wm := Add(st.AllocBase, IntT(int64(st.AllocN)))
 	dst := x.alloc(st)
 	x.zeroStruct(st, t, dst)
 	for _, f := range protoFields(t) {
 		a := &Addr{Prefix: fieldPrefix(t, f.Name()), Ref: src, T: f.Type()}
 		v := x.loadAddrPure(st, a)
+		x.assumeOlder(st, v, wm)
 		if mt, ok := isTypesMsgPtr(f.Type()); ok && depth < 3 {
 			inner := x.deepCopy(st, mt, v.T, depth+1)
 			v = scalar(Ite(Eq(v.T, IntT(0)), IntT(0), inner), f.Type())
@@ -99,8 +101,10 @@ func (x *Exec) deepCopy(st *State, t types.Type, src Term, depth int) Term {
 
 // copyInto overwrites the wire fields of the message at dst with (copies of) those of src.
 func (x *Exec) copyInto(st *State, t types.Type, dst, src Term) {
+	wm := Add(st.AllocBase, IntT(int64(st.AllocN)))
 	for _, f := range protoFields(t) {
 		v := x.loadAddrPure(st, &Addr{Prefix: fieldPrefix(t, f.Name()), Ref: src, T: f.Type()})
+		x.assumeOlder(st, v, wm)
 		if mt, ok := isTypesMsgPtr(f.Type()); ok {
 			inner := x.deepCopy(st, mt, v.T, 1)
 			v = scalar(Ite(Eq(v.T, IntT(0)), IntT(0), inner), f.Type())
@@ -109,13 +113,50 @@ func (x *Exec) copyInto(st *State, t types.Type, dst, src Term) {
 	}
 }
 
+// assumeOlder: references stored in existing objects were allocated before wm.
+func (x *Exec) assumeOlder(st *State, v Val, wm Term) {
+	var r Term
+	switch v.K {
+	case VScalar:
+		if v.T.Sort != SInt {
+			return
+		}
+		switch v.GoT.Underlying().(type) {
+		case *types.Pointer, *types.Slice, *types.Map:
+			r = v.T
+		default:
+			return
+		}
+	case VSlice:
+		r = v.Ref
+	default:
+		return
+	}
+	if _, lit := litInt(r); lit {
+		return
+	}
+	st.assume(And(Ge(r, IntT(0)), Le(r, wm)))
+	st.markOlder(r)
+}
+
 func (x *Exec) msgId(st *State, t types.Type, ref Term) Term {
 	return x.loadAddrPure(st, &Addr{Prefix: fieldPrefix(t, "Id"), Ref: ref, T: types.Typ[types.String]}).T
 }
 
+// newErr: a fresh non-nil error that is none of the sentinel kinds.
 func (x *Exec) newErr(st *State, what string) Val {
+	v := x.newErrAny(st, what)
+	for _, p := range []string{"isNotFound", "isDuplicate", "isClosed", "isTemporary"} {
+		st.assume(Not(x.errPred(p, v.T)))
+	}
+	return v
+}
+
+// newErrAny: a fresh non-nil error of arbitrary kind (storage and listener failures).
+func (x *Exec) newErrAny(st *State, what string) Val {
 	e := x.fresh(st, "err!"+what, SInt)
 	st.assume(Gt(e, IntT(0)))
+	st.assume(Neq(e, IntT(0))) // in the textual form branch conditions use, so infeasible branches are pruned
 	return Val{K: VIface, T: e, GoT: errType}
 }
 
@@ -164,7 +205,7 @@ func storageStore(x *Exec, st *State, c *CallCtx) []Outcome {
 		return x.havocCall(st, c, "Storage.Store(unknown)")
 	}
 	fail := st.clone()
-	fe := x.newErr(fail, "store")
+	fe := x.newErrAny(fail, "store")
 	// success
 	id := x.msgId(st, t, ref)
 	snap := x.deepCopy(st, t, ref, 0)
@@ -195,13 +236,13 @@ func storageLoad(x *Exec, st *State, c *CallCtx) []Outcome {
 	// not found
 	nf := st.clone()
 	nf.assume(Not(has))
-	ne := x.newErr(nf, "notfound")
+	ne := x.newErrAny(nf, "notfound")
 	nf.assume(x.errPred("isNotFound", ne.T))
 	nf.Trace = append(nf.Trace, "Load:notfound")
 	outs = append(outs, Outcome{St: nf, Res: []Val{ne}})
 	if x.Faulty {
 		fl := st.clone()
-		fe := x.newErr(fl, "load")
+		fe := x.newErrAny(fl, "load")
 		fl.Trace = append(fl.Trace, "Load:err")
 		outs = append(outs, Outcome{St: fl, Res: []Val{fe}})
 	}
@@ -224,7 +265,7 @@ func storageRemove(x *Exec, st *State, c *CallCtx) []Outcome {
 		return x.havocCall(st, c, "Storage.Remove(unknown)")
 	}
 	fail := st.clone()
-	fe := x.newErr(fail, "remove")
+	fe := x.newErrAny(fail, "remove")
 	fail.Trace = append(fail.Trace, "Remove:err")
 	id := x.msgId(st, t, ref)
 	x.stSet(st, kind, id, BoolT(false), nil)
@@ -251,7 +292,7 @@ func storageLoadByNodeId(x *Exec, st *State, c *CallCtx) []Outcome {
 		return x.havocCall(st, c, "LoadByNodeId(unknown)")
 	}
 	fail := st.clone()
-	fe := x.newErr(fail, "loadbynodeid")
+	fe := x.newErrAny(fail, "loadbynodeid")
 	fail.Trace = append(fail.Trace, "LoadByNodeId:err")
 
 	nodeId := x.loadAddrPure(st, &Addr{Prefix: fieldPrefix(setT, "NodeId"), Ref: setRef, T: types.Typ[types.String]}).T
@@ -301,7 +342,7 @@ func storageLoadByNodeId(x *Exec, st *State, c *CallCtx) []Outcome {
 	nidArr := x.heapCur(st, fieldPrefix(nt, "NodeId"), arrSort(SInt, SStr))
 	// frame: objects existing before the call are unchanged
 	for _, f := range fas {
-		st.Cmds = append(st.Cmds, fmt.Sprintf("(assert (forall ((r Int)) (! (=> (<= r %s) (= (select %s r) (select %s r))) :pattern ((select %s r)))))", wmB.S, f.nw.S, f.old.S, f.nw.S))
+		st.addCmd(fmt.Sprintf("(assert (forall ((r Int)) (! (=> (<= r %s) (= (select %s r) (select %s r))) :pattern ((select %s r)))))", wmB.S, f.nw.S, f.old.S, f.nw.S))
 	}
 	// elements
 	var conj []string
@@ -314,13 +355,13 @@ func storageLoadByNodeId(x *Exec, st *State, c *CallCtx) []Outcome {
 	}
 	conj = append(conj, fmt.Sprintf("(> (select %s %s) 0)", recA.S, eid))
 	conj = append(conj, fmt.Sprintf("(<= (select %s %s) %s)", recA.S, eid, wmB.S))
-	st.Cmds = append(st.Cmds, fmt.Sprintf("(assert (forall ((i Int)) (! (=> (and (<= 0 i) (< i %s)) (and %s)) :pattern ((select %s i)))))", n.S, strings.Join(conj, " "), row.S))
+	st.addCmd(fmt.Sprintf("(assert (forall ((i Int)) (! (=> (and (<= 0 i) (< i %s)) (and %s)) :pattern ((select %s i)))))", n.S, strings.Join(conj, " "), row.S))
 	// distinct elements are distinct objects
-	st.Cmds = append(st.Cmds, fmt.Sprintf("(assert (forall ((i Int) (j Int)) (! (=> (and (<= 0 i) (< i j) (< j %s)) (not (= (select %s i) (select %s j)))) :pattern ((select %s i) (select %s j)))))", n.S, row.S, row.S, row.S, row.S))
+	st.addCmd(fmt.Sprintf("(assert (forall ((i Int) (j Int)) (! (=> (and (<= 0 i) (< i j) (< j %s)) (not (= (select %s i) (select %s j)))) :pattern ((select %s i) (select %s j)))))", n.S, row.S, row.S, row.S, row.S))
 	// later allocations lie above the returned objects
 	nb := x.fresh(st, "wm", SInt)
 	st.assume(Ge(nb, Add(st.AllocBase, IntT(int64(st.AllocN)))))
-	st.Cmds = append(st.Cmds, fmt.Sprintf("(assert (forall ((i Int)) (! (=> (and (<= 0 i) (< i %s)) (< (select %s i) %s)) :pattern ((select %s i)))))", n.S, row.S, nb.S, row.S))
+	st.addCmd(fmt.Sprintf("(assert (forall ((i Int)) (! (=> (and (<= 0 i) (< i %s)) (< (select %s i) %s)) :pattern ((select %s i)))))", n.S, row.S, nb.S, row.S))
 	st.AllocBase, st.AllocN = nb, 0
 	sv := Val{K: VSlice, GoT: slT, Ref: sref, Off: IntT(0), Len: n, Cap: n}
 	x.storeAddr(st, &Addr{Prefix: fieldPrefix(setT, "Nodes"), Ref: setRef, T: slT}, sv)
@@ -352,7 +393,15 @@ func (x *Exec) evalSt(c *evalCtx, fn string, a []Val) (Val, error) {
 	if fn == "StHas" {
 		return boolV(Select(x.stHas(st, kind), id, SBool)), nil
 	}
-	return scalar(Select(x.stRec(st, kind), id, SInt), types.NewPointer(mt)), nil
+	rec := Select(x.stRec(st, kind), id, SInt)
+	if _, written := st.Heap["St!rec!"+kind]; !written && c.st != nil && x.Mode != "summary" && !strings.Contains(rec.S, "!q") {
+		// snapshots of the arbitrary pre-state are objects that existed at entry
+		if _, done := c.st.Older[rec.S]; !done {
+			c.st.assume(And(Ge(rec, IntT(0)), Le(rec, c.st.WM0)))
+			c.st.Older[rec.S] = 0
+		}
+	}
+	return scalar(rec, types.NewPointer(mt)), nil
 }
 
 func (x *Exec) lookupNamed(short string) types.Type {
